@@ -94,8 +94,11 @@ class Pages(Files):
                     filepath, stat_result, if_none_match, if_modified_since
                 )(environ, start_response)
             if stat.S_ISDIR(stat_result.st_mode):
-                url = URL(environ=environ)
-                url = url.replace(scheme="", path=url.path + "/")
+                try:
+                    url = URL(environ=environ)
+                    url = url.replace(scheme="", path=url.path + "/")
+                except ValueError:
+                    raise HTTPException(400, content="Invalid Host header") from None
                 return RedirectResponse(url)(environ, start_response)
 
         if self.handle_404 is None:
